@@ -832,7 +832,7 @@ class Plugin:
     RUN_MODULE = "C05.Run"
     GEN = ["Types", "DateMatchers"]
     DEPENDS = ["C08"]
-    CLAUSES = {1: "mirrors", 2: "strict_refuses"}
+    CLAUSES = {1: "mirrors", 2: "strict_refuses", 3: "mirrors_collapsed"}
     SHARD = 40
     SEARCH_CASES = 600
     RULE = ("worlds = (description URL, device definition: tree depth 0..3, 0..4 services per device, state variables over all "
